@@ -456,6 +456,7 @@ impl Case for C03Case {
                         intrs: intrs.clone(),
                         max_instr: *budget,
                         cycle_replies: false,
+            host_load: None,
             max_slices: 0,
                     };
                     let o = w.line(text, &io);
